@@ -146,6 +146,46 @@ func vh_C06_reuse() {
 // and its MakeFunc body, genValue/valueGenerator, runCfg's unwind.
 var vhSeenArg int64
 
+var vhArgSlice = 0 // 1: the deferred call's argument is a slice variable (reference kind)
+
+// "defer p(s); s = nil" with s a slice: the deferred call still receives the
+// three-element slice.
+func vh_C06_defer_slice() {
+	vhResetClock()
+	vhStopAt = -1
+	i := vhNewInterp()
+	slT := &itype{cat: sliceT, val: &itype{cat: intT, rtype: reflect.TypeOf(0)}, rtype: reflect.TypeOf([]int{})}
+	body := &node{interp: i}
+	body.start = body
+	body.exec = func(f *frame) bltn {
+		vhSeenArg = int64(f.data[0].Len())
+		vhSteps++
+		return nil
+	}
+	blk := &node{interp: i, start: body}
+	def := &node{interp: i, kind: funcDecl, typ: &itype{cat: funcT, arg: []*itype{slT}, rtype: reflect.TypeOf(func([]int) {})}, types: []reflect.Type{slT.rtype}}
+	def.child = []*node{{interp: i}, {interp: i, ident: "p"}, {interp: i}, blk}
+	def.val = def
+	c0 := &node{interp: i, kind: identExpr, findex: notInFrame, val: def, typ: def.typ}
+	x := &node{interp: i, kind: identExpr, findex: 0, typ: slT}
+	deferN := &node{interp: i, kind: deferStmt}
+	callN := &node{interp: i, kind: callExpr, anc: deferN, child: []*node{c0, x}, typ: def.typ}
+	deferN.child = []*node{callN}
+	c0.anc, x.anc = callN, callN
+	call(callN)
+	f := newFrame(i.frame, 1, i.runid())
+	f.data[0] = reflect.New(slT.rtype).Elem()
+	f.data[0].Set(reflect.ValueOf([]int{1, 2, 3}))
+	vReach("C06.defer.slice")
+	callN.exec(f)                                   // defer p(s)
+	f.data[0].Set(reflect.ValueOf([]int(nil)))      // s = nil
+	end := &node{interp: i}
+	end.exec = func(*frame) bltn { return nil }
+	runCfg(end, f, end, nil)
+	vAssert("C06.defer.runs-once", vhSteps == 1)
+	vAssert("C06.defer.args-fixed", vhSeenArg == 3)
+}
+
 func vh_C06_defer_args() {
 	vhResetClock()
 	vhStopAt = -1
@@ -187,7 +227,7 @@ func vh_C06_defer_args() {
 	vAssert("C06.defer.args-fixed", vhSeenArg == a)
 }
 
-var vhRegistry = map[string]func(){"vh_C06_unwind": vh_C06_unwind, "vh_C06_execute": vh_C06_execute, "vh_C06_reuse": vh_C06_reuse, "vh_C06_defer_args": vh_C06_defer_args}
+var vhRegistry = map[string]func(){"vh_C06_unwind": vh_C06_unwind, "vh_C06_execute": vh_C06_execute, "vh_C06_reuse": vh_C06_reuse, "vh_C06_defer_args": vh_C06_defer_args, "vh_C06_defer_slice": vh_C06_defer_slice}
 
 var vhIntVars = map[string]*int{"vhMaxSteps": &vhMaxSteps, "vhNExec": &vhNExec}
 
